@@ -152,51 +152,62 @@ def decAcq (j : Json) : Except String AcqResult := do
 
 def tag (p : String) (l : List String) : List String := l.map (p ++ ·)
 
-/-- the judge on the implementation's observations of one op -/
-def judgeOp (op : SOp) (reply : Json) (before after : FCs) : Except String (List String) := do
+/-- ghost of the harness: `(flow control, instance, newest id already processed)` before the op -/
+abbrev Ghost := List (Str × Str × Int)
+
+def decGhost (j : Json) : Except String Ghost := do
+  match J.optObj j "ghost" with
+  | none => pure []
+  | some g =>
+    (← g.getArr?).toList.mapM fun e => do
+      match (← e.getArr?).toList with
+      | [f, i, l] => pure ((← J.asHex f), (← J.asHex i), (← l.getInt?))
+      | _ => throw "bad ghost triple"
+
+def ghostOf (g : Ghost) (fc inst : Str) : Option Int :=
+  (g.find? fun (f, i, _) => f = fc ∧ i = inst).map (·.2.2)
+
+/-- the judge (clauses of the property's text, `KG.Spec.GlobalCount.judgeViolations` & co.) on the
+    implementation's observations of one op. The limit in `before`/`after` is the CONFIGURED one (substituted by
+    the harness). Replies the property does not mention (`latest`, error kinds, `Resize`'s answer, the `limit`
+    of a refusal) are not looked at. -/
+def judgeOp (op : SOp) (reply : Json) (ghost : Ghost) (before after : FCs) : Except String (List String) := do
   match op with
   | .set fc inst rid cur =>
     match findFC fc before, findFC fc after with
     | some (.mif b), some (.mif a) =>
       let rep ← decReply reply
-      pure (violations (instancesOf a b) b inst rid cur rep a)
+      pure (judgeViolations (instancesOf a b) (ghostOf ghost fc inst) b inst rid cur rep a)
     | _, _ => pure []
-  | .resize fc n _ =>
+  | .resize fc _ _ =>
     match findFC fc before, findFC fc after with
-    | some (.mif b), some (.mif a) => pure (resizeViolations b n a)
+    | some (.mif b), some (.mif a) => pure (jcResize b a)
     | _, _ => pure []
   | .del inst =>
     pure <| before.flatMap fun (n, fc) =>
       match fc, findFC n after with
-      | .mif b, some (.mif a) => violations (instancesOf a b) b inst (-1) (-1) ⟨false, -1, .none⟩ a
+      | .mif b, some (.mif a) => judgeViolations (instancesOf a b) none b inst (-1) (-1) ⟨false, -1, .none⟩ a
       | _, _ => []
   | .acq inst rid reqs _ =>
     let rs ← (← reply.getArr?).toList.mapM decAcq
-    if rs.length ≠ reqs.length then pure ["acquire-result-count"] else
+    if rs.length ≠ reqs.length then pure [] else   -- shape of the answer: compared with the model, not judged
     pure <| (reqs.zip rs).flatMap fun ((fc, tokens), r) =>
-      let neg := if tokens < 0 ∧ (findFC fc before).isSome then
-          (if r.err = .negativeTokens ∧ r.accept = false ∧ r.limit = 0 then [] else ["negative-ask-not-refused"]) else []
       let once := (reqs.filter fun q => q.1 = fc).length = 1
-      neg ++
       match findFC fc before, findFC fc after with
-      | some (.tb _), some (.tb _) => grantViolations tokens r
+      | some (.tb _), some (.tb _) => grantJudge tokens r
       | some (.mif b), some (.mif a) =>
         if !once then []
-        else if tokens < 0 then (if a = b then [] else ["negative-ask-changes-state"])
+        else if tokens < 0 then
+          (if r.accept = false ∧ r.limit = 0 then [] else ["negative-ask-not-refused"]) ++
+          (if jcResize b a = [] then [] else ["negative-ask-changes-state"])
         else
-          let rep : Reply := match r.err with
-            | .requestIDTooOld => ⟨false, tokens, .requestIDTooOld⟩
-            | _ => if r.accept then ⟨true, r.limit, .none⟩ else ⟨false, r.limit, .none⟩
-          (if r.accept ∧ r.limit ≠ tokens then ["accept-limit-not-ask"] else []) ++
-          violations (instancesOf a b) b inst rid tokens rep a
+          judgeViolations (instancesOf a b) (ghostOf ghost fc inst) b inst rid tokens ⟨r.accept, r.limit, .none⟩ a
       | _, _ => []
   | .sync spec =>
     pure <| spec.flatMap fun s =>
       if (spec.filter fun q => q.name = s.name).length ≠ 1 then [] else
       match s.gmif, findFC s.name before, findFC s.name after with
-      | some _, some (.mif b), some (.mif a) =>
-        -- (an unchanged spec returns early, so the limit is only compared with the model's)
-        if a.count = b.count ∧ a.states = b.states then [] else ["resize-touches-accounting"]
+      | some _, some (.mif b), some (.mif a) => jcResize b a
       | _, _, _ => []
 
 def doRun (a : Json) : Except String Json := do
@@ -214,8 +225,8 @@ def doRun (a : Json) : Except String Json := do
       let rec go (ops : List SOp) (obs : List Json) (before : FCs) (i : Nat) : Except String (List String) :=
         match ops, obs with
         | op :: ops', o :: obs' => do
-          let after ← decFCs (← J.getObj o "snap")
-          let v ← judgeOp op ((o.getObjVal? "reply").toOption.getD Json.null) before after
+          let after ← decFCs (← J.getObj o "jsnap")
+          let v ← judgeOp op ((o.getObjVal? "reply").toOption.getD Json.null) (← decGhost o) before after
           let rest ← go ops' obs' after (i + 1)
           pure (tag s!"{i}:" v ++ rest)
         | _, _ => pure []
@@ -334,6 +345,10 @@ def doConc (a : Json) : Except String Json := do
   let outcomes := (interleavings total threads).map fun sched =>
     let (st, outs) := sched.foldl (fun (acc : Store × List (Nat × Json)) (to : Nat × SOp) =>
       let (st', r) := stepStore acc.1 to.2
+      -- `Resize`'s answer is not compared (the real call is a read followed by a store)
+      let r := match to.2 with
+        | .resize .. => Json.null
+        | _ => r
       (st', acc.2 ++ [(to.1, r)])) (st0, [])
     let per := (List.range threads.length).map fun t => (outs.filter (·.1 = t)).map (·.2)
     (canon st.fcs, (Json.arr (per.map fun l => Json.arr l.toArray).toArray).compress)
